@@ -105,6 +105,12 @@ Theorem C17_vs_is_one :
 Proof. exact @vs_is_one. Qed.
 Print Assumptions C17_vs_is_one.
 
+Theorem C17_vs_is_x :
+  forall {F K} (o : fops F) (fk : fieldK K) (ok : F -> Prop) (den : F -> K), field_ok o fk ok den ->
+  forall a a', same fk ok den a a' -> poly_is_x o a = poly_is_x o a' /\ exists b, poly_is_x o a = Some b.
+Proof. exact @vs_is_x. Qed.
+Print Assumptions C17_vs_is_x.
+
 Theorem C17_vs_evaluate :
   forall {F K} (o : fops F) (fk : fieldK K) (ok : F -> Prop) (den : F -> K), field_ok o fk ok den ->
   forall a a' x, same fk ok den a a' -> ok x -> poly_evaluate o a x = poly_evaluate o a' x.
